@@ -555,11 +555,42 @@ class Splicer:
         if fs:
             for c in fs.closures:
                 specd[c.ordinal] = c
+        # closure contracts are written for the n-th closure of the pinned text; when a closure has been removed or added the
+        # ordinals shift, so the contracts are aligned with the closures actually present by parameter list (longest common
+        # subsequence): a contract whose closure is gone is dropped, the others stay with their closures
+        ptexts_ = [rs.norm(toks, c["params_lo"], c["params_hi"]) for c in cls]
+        ords_ = sorted(specd)
+        if specd and [rs.norm_text(specd[o].params) for o in ords_] != [ptexts_[o - 1] if o <= len(ptexts_) else None for o in ords_]:
+            A_ = [rs.norm_text(specd[o].params) for o in ords_]
+            L_ = [[0] * (len(ptexts_) + 1) for _ in range(len(A_) + 1)]
+            for i_ in range(len(A_) - 1, -1, -1):
+                for j_ in range(len(ptexts_) - 1, -1, -1):
+                    L_[i_][j_] = L_[i_ + 1][j_ + 1] + 1 if A_[i_] == ptexts_[j_] else max(L_[i_ + 1][j_], L_[i_][j_ + 1])
+            i_, j_, amap_ = 0, 0, {}
+            while i_ < len(A_) and j_ < len(ptexts_):
+                if A_[i_] == ptexts_[j_]:
+                    amap_[j_ + 1] = specd[ords_[i_]]
+                    i_ += 1
+                    j_ += 1
+                elif L_[i_ + 1][j_] >= L_[i_][j_ + 1]:
+                    i_ += 1
+                else:
+                    j_ += 1
+            unmatched_specs_ = [specd[o] for o in ords_ if specd[o] not in amap_.values()]
+            unmatched_cls_ = [n_ for n_ in range(1, len(cls) + 1) if n_ not in amap_ and any(rs.norm_text(sp_.params).count(",") == ptexts_[n_ - 1].count(",") for sp_ in unmatched_specs_)]
+            for sp_ in unmatched_specs_:
+                # excused only if some closure without a contract is left that it might have belonged to (e.g. a renamed parameter)
+                g.meta["skipped_anchors"].append({"fn": key, "kind": "closure", "ordinal": sp_.ordinal, "expected": sp_.params,
+                                                  "found": ptexts_[unmatched_cls_[0] - 1] if unmatched_cls_ else None, "excuses": bool(unmatched_cls_)})
+            specd = amap_
+            specd_aligned_ = True
+        else:
+            specd_aligned_ = False
         for n, c in enumerate(cls, 1):
             ptext = rs.norm(toks, c["params_lo"], c["params_hi"])
             if n in specd:
                 cs = specd[n]
-                if "%s#%d" % (key, n) in getattr(self, "skip_closures", ()):
+                if "%s#%d" % (key, cs.ordinal) in getattr(self, "skip_closures", ()):
                     g.meta["skipped_anchors"].append({"fn": key, "kind": "closure", "ordinal": n, "expected": cs.params, "found": ptext, "forced": True})
                     cs = None
                 elif rs.norm_text(cs.params) != ptext:
@@ -592,7 +623,7 @@ class Splicer:
             if ptext in ("| _ |",):
                 self.sub(c["params_lo"] + 1, c["params_lo"] + 2, "_p", "R4") if toks[c["params_lo"] + 1].text == "_" else None
         for n in specd:
-            if n > len(cls):
+            if n > len(cls) and not specd_aligned_:
                 # the closure is gone altogether: there is no closure left whose unspecified result could be what a proof lacks
                 g.meta["skipped_anchors"].append({"fn": key, "kind": "closure", "ordinal": n, "expected": specd[n].params, "found": None, "excuses": False})
         if fs is None:
